@@ -26,7 +26,46 @@ Section Basic.
     if lo <=? hi then Ok (if x <? lo then lo else if hi <? x then hi else x)
     else Panic site_clamp_assert.
 
-  Definition basic_measurement (s : bstate) (m : meas) (c : clk) : outcome (bstate * clk * fupdate) :=
+  (* everything computed before the first clock call of the non-step path *)
+  Definition basic_offset_part (s : bstate) (offset aoff : Z) : outcome (Z * Z * Z) :=
+    let! (clamped, oc) :=
+      if b_offset_conf s <? aoff then
+        let! noc := d_neg dbg (b_offset_conf s) in
+        let! cl := d_clamp offset noc (b_offset_conf s) in
+        let! oc2 := fix_mul dbg (b_offset_conf s) (2 * FRAC) in
+        Ok (cl, oc2)
+      else
+        let! diff := d_sub dbg (b_offset_conf s) aoff in
+        let! dg := d_mul_f dbg diff (b_gain s) in
+        let! oc2 := d_sub dbg (b_offset_conf s) dg in
+        Ok (offset, oc2) in
+    let! ncl := d_neg dbg clamped in
+    let! correction := d_mul_f dbg ncl (b_gain s) in
+    Ok (clamped, oc, correction).
+
+  (* local and master intervals (Duration bits) since the previous step *)
+  Definition basic_intervals (m_t offset l_time l_offset l_corr : Z) : outcome (Z * Z) :=
+    let! d1 := t_diff dbg m_t l_time in
+    let! d2 := d_sub dbg d1 l_corr in
+    let! t1 := t_sub_d dbg m_t offset in
+    let! t2 := t_sub_d dbg l_time l_offset in
+    let! d3 := t_diff dbg t1 t2 in
+    Ok (d2, d3).
+
+  (* (freq_corr, new freq_confidence) from the two intervals *)
+  Definition basic_freq_corr (s : bstate) (d2 d3 : Z) : outcome (float * float) :=
+    let freq_diff := fix2f d2 /. fix2f d3 in
+    let! (fd, fc) :=
+      if fabs (freq_diff -. fone) >. b_freq_conf s then
+        match fclamp freq_diff (fone -. b_freq_conf s) (fone +. b_freq_conf s) with
+        | Some x => Ok (x, b_freq_conf s *. ftwo)
+        | None => Panic site_clamp_assert
+        end
+      else
+        Ok (freq_diff, b_freq_conf s -. (b_freq_conf s -. fabs (freq_diff -. fone)) *. b_gain s) in
+    Ok (-. (fd -. fone) *. b_gain s *. c_0p1 *. c_1e6, fc).
+
+  Definition basic_measurement (s : bstate) (m : meas) : CM (bstate * fupdate) :=
     let md1 := match m_delay m with Some d => Some d | None => None end in
     let ld1 := match m_delay m with Some d => d | None => b_last_delay s end in
     let md := match m_peer m with Some d => Some d | None => md1 end in
@@ -34,57 +73,30 @@ Section Basic.
     let upd : fupdate := (false, md) in
     match m_offset m with
     | None =>
-        Ok (mk_bstate (b_last_step s) (b_offset_conf s) (b_freq_conf s) (b_gain s) (b_cur_freq s)
-                      (b_last_offset s) ld, c, upd)
+        mret (mk_bstate (b_last_step s) (b_offset_conf s) (b_freq_conf s) (b_gain s) (b_cur_freq s)
+                        (b_last_offset s) ld, upd)
     | Some offset =>
-        let! aoff := d_abs dbg offset in
+        let* aoff := mlift (d_abs dbg offset) in
         if ONE_SEC <? aoff then
-          let! noff := d_neg dbg offset in
-          let '(_, c') := clk_call c (StepClock noff) in
-          Ok (mk_bstate (b_last_step s) ONE_SEC c_1em4 (b_gain s) (b_cur_freq s) offset ld, c', upd)
+          let* noff := mlift (d_neg dbg offset) in
+          let* _ := mcall (StepClock noff) in
+          mret (mk_bstate (b_last_step s) ONE_SEC c_1em4 (b_gain s) (b_cur_freq s) offset ld, upd)
         else
-          let! (clamped, oc) :=
-            if b_offset_conf s <? aoff then
-              let! noc := d_neg dbg (b_offset_conf s) in
-              let! cl := d_clamp offset noc (b_offset_conf s) in
-              let! oc2 := fix_mul dbg (b_offset_conf s) (2 * FRAC) in
-              Ok (cl, oc2)
-            else
-              let! diff := d_sub dbg (b_offset_conf s) aoff in
-              let! dg := d_mul_f dbg diff (b_gain s) in
-              let! oc2 := d_sub dbg (b_offset_conf s) dg in
-              Ok (offset, oc2) in
-          let! ncl := d_neg dbg clamped in
-          let! correction := d_mul_f dbg ncl (b_gain s) in
-          let! (freq_corr, fc, cur0, c1) :=
+          let* (clamped, oc, correction) := mlift (basic_offset_part s offset aoff) in
+          let* (freq_corr, fc, cur0) :=
             match b_last_step s with
             | Some (l_time, l_offset, l_corr) =>
-                let! d1 := t_diff dbg (m_time m) l_time in
-                let! d2 := d_sub dbg d1 l_corr in
-                let interval_local := fix2f d2 in
-                let! t1 := t_sub_d dbg (m_time m) offset in
-                let! t2 := t_sub_d dbg l_time l_offset in
-                let! d3 := t_diff dbg t1 t2 in
-                let interval_master := fix2f d3 in
-                let freq_diff := interval_local /. interval_master in
-                let! (fd, fc) :=
-                  if fabs (freq_diff -. fone) >. b_freq_conf s then
-                    match fclamp freq_diff (fone -. b_freq_conf s) (fone +. b_freq_conf s) with
-                    | Some x => Ok (x, b_freq_conf s *. ftwo)
-                    | None => Panic site_clamp_assert
-                    end
-                  else
-                    Ok (freq_diff,
-                        b_freq_conf s -. (b_freq_conf s -. fabs (freq_diff -. fone)) *. b_gain s) in
-                Ok (-. (fd -. fone) *. b_gain s *. c_0p1 *. c_1e6, fc, b_cur_freq s, c)
+                let* (d2, d3) := mlift (basic_intervals (m_time m) offset l_time l_offset l_corr) in
+                let* (fcorr, fc) := mlift (basic_freq_corr s d2 d3) in
+                mret (fcorr, fc, b_cur_freq s)
             | None =>
-                let '(_, c') := clk_call c (SetFreq fzero) in
-                Ok (fzero, b_freq_conf s, fzero, c')
+                let* _ := mcall (SetFreq fzero) in
+                mret (fzero, b_freq_conf s, fzero)
             end in
-          let '(_, c2) := clk_call c1 (StepClock correction) in
-          let '(r, c3) := clk_call c2 (SetFreq (cur0 +. freq_corr)) in
+          let* _ := mcall (StepClock correction) in
+          let* r := mcall (SetFreq (cur0 +. freq_corr)) in
           let cur := match r with Some _ => cur0 +. freq_corr | None => cur0 end in
-          Ok (mk_bstate (Some (m_time m, offset, correction)) oc fc (b_gain s) cur offset ld, c3, upd)
+          mret (mk_bstate (Some (m_time m, offset, correction)) oc fc (b_gain s) cur offset ld, upd)
     end.
 
   Definition basic_estimates (s : bstate) : Z * Z := (b_last_offset s, b_last_delay s).
